@@ -105,6 +105,8 @@ def request(S, z, ladder, emb: Emb, with_units=False, nest=False, twin=0):
     req = dict(streams=streams, utilities=utils, options={"DT_CONT": emb.dT(50), "DT_PHASE_CHANGE": emb.dT(10)})
     if nest in ("tree", "subsite", "community"):
         req["zone_tree"] = zone_tree_for(z, nest)
+    if nest == "ops":
+        req["options"]["DO_DIRECT_OPERATION_TARGETING"] = True
     return req
 
 
@@ -191,7 +193,7 @@ def graphs_differ(base_sig, var_sig, g, emb_b: Emb, emb_v: Emb):
 def one_run(g, S, z, ladder, emb, extra_checks, twin=0):
     run = dict(g=g, S=S, z=z, recs=[], err="", dtDefault=60, py=[])
     try:
-        nest = g if g in ("dup", "tree", "subsite", "community") else g == "nest"
+        nest = g if g in ("dup", "tree", "subsite", "community", "ops") else g == "nest"
         req = request(S, z, ladder, emb, with_units=(g == "perm"), nest=nest, twin=twin)
         out, mz = _OP["service"](req, project_name=("Town" if g == "community" else "Site"), is_return_full_results=True)
         recs = project(out, emb, nest)
@@ -202,7 +204,8 @@ def one_run(g, S, z, ladder, emb, extra_checks, twin=0):
             for sz in zn.subzones.values():
                 yield from walk(sz)
         from collections import Counter
-        want = Counter(f"{zn.name}/Direct Integration" for zn in walk(mz) if zn.identifier in ("Site", "Process Zone"))
+        kinds = ("Site", "Process Zone") + (("Unit Operation",) if g == "ops" else ())
+        want = Counter(f"{zn.name}/Direct Integration" for zn in walk(mz) if zn.identifier in kinds)
         if Counter(n for n in names if n.endswith("/Direct Integration")) != want:       # zone names may repeat in different branches
             run["py"].append("C14.one_DI_record_per_zone")
         if recs is None:
@@ -381,6 +384,89 @@ def site_leg(run, tier, names, accept):
     return nontriv
 
 
+# ---------------------------------------------------------------------------
+# C12 on larger random sites: a stream cut at a temperature that is no table row (the exhaustive lattice problems are too small
+# for a utility hand-over to fall strictly inside a table interval, which is what seeded change C12e needs)
+def _big_problem(rnd):
+    from . import trace_pipeline as tp
+    p = tp.random_problem(rnd)
+    # hot utilities below the top: an isothermal level and a hot-water loop gliding through the process range
+    top = max(s["hi"] for s in p["S"])
+    lad = [dict(name="STM", type="Hot", ts=top + 300, tt=top + 300)]
+    a = rnd.randrange(2, 16) * 100
+    lad.append(dict(name="HWL", type="Hot", ts=a + rnd.choice([300, 500, 700]), tt=a))
+    lad.append(dict(name="CWG", type="Cold", ts=-300, tt=-100))
+    p["ladder"] = lad
+    return p
+
+
+def _drive_big(args):
+    idx, p = args
+    from . import trace_pipeline as tp
+    emb = tp.EMB
+    wide = [i for i, s in enumerate(p["S"]) if s["hi"] - s["lo"] >= 200]
+    if not wide:
+        return dict(idx=idx, skipped=True)
+    i = wide[idx % len(wide)]
+    w = (p["S"][i]["hi"] - p["S"][i]["lo"]) // 100
+    cut = p["S"][i]["lo"] + 30 + 100 * ((idx // 3) % w)          # anywhere along the stream, never on the 50-unit lattice
+    S2 = p["S"][:i] + [dict(p["S"][i], hi=cut), dict(p["S"][i], lo=cut)] + p["S"][i + 1:]
+    try:
+        ob = _OP["service"](tp.request(p), project_name="Site")
+        ov = _OP["service"](tp.request(dict(p, S=S2)), project_name="Site")
+    except Exception as e:
+        return dict(idx=idx, fails=["C14.service_raises"], detail=dict(exc=repr(e)[:200]))
+    fails, detail = [], {}
+    rb = {t.name: t for t in ob.targets}
+    rv = {t.name: t for t in ov.targets}
+    if set(rb) != set(rv):
+        fails.append("C12.same_records.split_large")
+    else:
+        scale = max(1.0, max(abs(float(t.Qh)) + abs(float(t.Qc)) + abs(float(t.Qr)) for t in ob.targets))
+        for n, t in rb.items():
+            u = rv[n]
+            vals = [("target", t.Qh, u.Qh), ("target", t.Qc, u.Qc), ("target", t.Qr, u.Qr),
+                    ("pinch", t.temp_pinch.hot_temp, u.temp_pinch.hot_temp), ("pinch", t.temp_pinch.cold_temp, u.temp_pinch.cold_temp)]
+            vals += [("utility duty", a.heat_flow, b.heat_flow) for a, b in zip(t.hot_utilities + t.cold_utilities, u.hot_utilities + u.cold_utilities)]
+            for fld, a, b in vals:
+                if (a is None) != (b is None) or (a is not None and abs(float(a) - float(b)) > 1e-6 * scale):
+                    fails.append("C12.invariant_under.split_large"); detail = dict(record=n, field=fld, base=a, variant=b); break
+            if fails:
+                break
+    if not fails:
+        d = graphs_differ(graph_signature(ob, emb), graph_signature(ov, emb), "split", emb, emb)
+        if d:
+            fails.append("C12.graph_data_invariant_under.split_large"); detail = d
+    return dict(idx=idx, fails=fails, detail=detail, cut=[i, cut])
+
+
+def kf_glide_rows(v, f):
+    """KF-C12-glide-rows: only the split of duty between utilities differs, and the ladder has a gliding utility (see KF-C04-glide)"""
+    lad = (v.case.get("problem") or {}).get("ladder") or []
+    return (v.clause == "C12.invariant_under.split_large" and v.detail.get("field") == "utility duty"
+            and any(abs(u["ts"] - u["tt"]) > 10 for u in lad))
+
+
+def big_split_leg(run, tier):
+    import random
+    run.register_matcher("kf_glide_rows", kf_glide_rows)
+    rnd = random.Random(120 + seed())
+    probs = [_big_problem(rnd) for _ in range(100 if tier == "quick" else 2500)]
+    with Pool(16, initializer=_init) as pool:
+        res = pool.map(_drive_big, list(enumerate(probs)), chunksize=4)
+    n = 0
+    for r in res:
+        if r.get("skipped"):
+            continue
+        n += 1
+        run.cov["evaluations"] += 1
+        run.cov["traces_validated_against_impl"] += 1
+        for c in r["fails"]:
+            if c.startswith("C12."):
+                run.violation(c, dict(problem=probs[r["idx"]], cut=r.get("cut")), r["detail"], leg="T")
+    run.notes["large_sites_split_off_lattice"] = dict(problems=n, judged_by="harness (float comparison of records and graph point sets)")
+
+
 def check(prop, tier, run: Run, replay_case=None):
     pre = prop + "."
     if replay_case is not None:
@@ -397,6 +483,8 @@ def check(prop, tier, run: Run, replay_case=None):
                         "reported numbers transported to TLC in fixed point (1e-4 lattice units), compared within 12 units (< 1e-6 of the total duty plus rounding)"]
     names = ["quick2", "quick3", "near", "latent"] if tier == "quick" else ["quick2", "near", "latent", "deep3"]
     nontriv = site_leg(run, tier, names, lambda c: c if (c.startswith(pre) or (prop == "C14" and c.startswith("C13.one_graph"))) else None)
+    if prop == "C12":
+        big_split_leg(run, tier)
     if prop in ("C02", "C09", "C14"):
         from . import corpus
         corpus.leg_t(run, prop, tier)
